@@ -33,6 +33,7 @@ type c19Inv struct {
 	Family    string          `json:"family"`      // base | sweep | multi
 	RefKey    string          `json:"-"`
 	HasLink   bool            `json:"has_link,omitempty"`
+	Sibling   bool            `json:"sibling,omitempty"` // files with names derived from the input's name stand next to it
 	Unsettled bool            `json:"unsettled,omitempty"` // the property does not settle whether this vector is an error: exit 0 is accepted if the outputs are right
 }
 
@@ -197,6 +198,27 @@ func c19Gen(r *Run, rng *gen.Rng, corpus []string) *c19Inv {
 			}
 		}
 		files = append(files, simrt.FileSpec{Path: path.Join(outAbs, "unrelated.txt"), Data: []byte("keep me\n")})
+	}
+	if rng.Chance(25) {
+		// files next to the input whose names derive from the input's name (the same stem with
+		// or without an extension, editor and backup copies): they are other files, with other content
+		inDir := path.Dir(path.Join(mount, main))
+		cands := []string{base + ".tsh", base + ".tsh", stem + ".tsh", stem, base + ".sh", base + ".bat", stem + ".tsh.tsh", "." + base, base + "~", base + ".bak", strings.ToUpper(base)}
+		for n := rng.Range(1, 2); n > 0; n-- {
+			c := rng.Pick(cands)
+			p := path.Join(inDir, c)
+			taken := c == base || c == "" || c == "." || inDir == outAbs
+			for _, f := range files {
+				if f.Path == p || strings.HasPrefix(f.Path, p+"/") {
+					taken = true
+				}
+			}
+			if taken {
+				continue
+			}
+			files = append(files, simrt.FileSpec{Path: p, Data: []byte(rng.Pick([]string{"print(\"the sibling, not the input\")\n", "print(\"the sibling, not the input\")\n", "var x int = \"a type error in the sibling\"\n", "this is not a program {{{\n", ""}))})
+			inv.Sibling = true
+		}
 	}
 	files = append(files, simrt.FileSpec{Path: "/tmp", Dir: true})
 	cwd := rng.Pick([]string{mount, "/sim", "/", path.Dir(path.Join(mount, main)), outAbs, path.Dir(outAbs)})
@@ -795,6 +817,12 @@ func c19Probes(st *c19Stats, inv *c19Inv, res *TshResult, refs map[string]*c19Re
 	}
 	if !inv.Valid {
 		st.probes["invalid_options"]++
+	}
+	if inv.Sibling {
+		st.probes["sibling_named_after_input"]++
+	}
+	if inv.HasLink {
+		st.probes["symlink_in_world"]++
 	}
 	if len(inv.Protected) > 4 {
 		st.probes["program_with_imports"]++
